@@ -189,13 +189,20 @@ class Report:
         solver_obs = [o for o in obs if o["kind"] == "solver"]
         distinct = len({o["name"] for o in solver_obs})
         discharged = sum(1 for o in obs if o["status"] in (PROVED, CONTROL, CONCRETE))
+        samples = list(self.samples)
+        for o in solver_obs:
+            if len(samples) >= 8:
+                break
+            if o["status"] == PROVED and isinstance(o.get("detail"), dict) and o["detail"].get("smt"):
+                samples.append({"obligation": o["name"], "verdict": "unsat of (domain & path & not claim)", "claim_smt": o["detail"]["smt"], "solver_s": o["solver_s"]})
         cov: Dict[str, Any] = {
             "evaluations": max(self.queries, len(obs)),
             "distinct_nontrivial": distinct,
             "rule": "one evaluation = one SMT query (or one labelled concrete side-condition); an obligation is "
                     "distinct by its (harness, path, claim) name and non-trivial iff it reached the solver "
                     "(syntactically decided claims are not counted)",
-            "samples": self.samples[:12] or [o for o in obs[:3]],
+            "samples": samples[:12] or [o for o in obs[:3]],
+            "syntactically_decided": sum(1 for o in obs if o["kind"] == "syntactic"),
             "obligations": len(obs),
             "discharged": discharged,
             "by_status": by_status,
